@@ -393,6 +393,38 @@ impl GModel {
         self.rules.iter().any(|r| r.body.as_ref().is_some_and(|b| walk(b, false, &mut vec![])))
     }
 
+    /// Shape tag: a node creation at a mark while a mark taken later is still going to be used (`<1 A <2 B 1>x C 2>y`,
+    /// or a whole-rule `>` before `k>`): marks are plain indices, the insertion shifts everything behind it and the later
+    /// mark goes stale (known finding, DESIGN §7).
+    pub fn creation_makes_later_mark_stale(&self) -> bool {
+        fn walk(r: &Rx, taken: &mut Vec<String>, stale: &mut Vec<String>, hit: &mut bool) {
+            match r {
+                Rx::Seq(v) | Rx::Alt(v) | Rx::Choice(v) => v.iter().for_each(|x| walk(x, taken, stale, hit)),
+                Rx::Opt(x) | Rx::Star(x) | Rx::Plus(x) | Rx::Paren(x) => walk(x, taken, stale, hit),
+                Rx::Marker(n) => taken.push(n.clone()),
+                Rx::Create { num: Some(n), .. } => {
+                    if stale.contains(n) {
+                        *hit = true;
+                    }
+                    if let Some(p) = taken.iter().position(|t| t == n) {
+                        for later in &taken[p + 1..] {
+                            stale.push(later.clone());
+                        }
+                    }
+                }
+                Rx::Create { num: None, .. } => stale.extend(taken.iter().cloned()),
+                _ => {}
+            }
+        }
+        self.rules.iter().any(|r| {
+            let mut hit = false;
+            if let Some(b) = &r.body {
+                walk(b, &mut vec![], &mut vec![], &mut hit);
+            }
+            hit
+        })
+    }
+
     pub fn has_choice(&self) -> bool {
         fn f(r: &Rx) -> bool {
             match r {
